@@ -6,9 +6,10 @@
    Vocabulary (Model/Plane.v): [partition_of Pseg Pmono n m] - two n x m planes with equal amplitude, OPD,
    pixel scale and focal length, Pseg with a cube of pairwise disjoint segment masks (their bounding slices
    may overlap), Pmono with the 2-d mask that is their union; both satisfy the constructor's invariant
-   ([plane_ok]: slices = bounding slices of the masks, each with more than one sample).
-   [regular_chain ps w w'] - multiplying w through the planes ps succeeds with result w' and no step produces a
-   one-element field (known finding C03-one-element-array-field: such a field is read as an infinite constant). *)
+   ([plane_ok]: slices = bounding slices of the masks).  Segments and intermediate fields may be single
+   samples and a cube may have a single layer (the code after the fix: commits for the findings
+   C03-one-element-array-field and C03-one-layer-cube).
+   [chain_multiply ps w] - Wavefront * P1 * ... * Pk. *)
 From LV Require Import Model.Segment Proofs.FieldP Proofs.DftP Proofs.PlaneP Proofs.PropagateP Proofs.SegmentP Lib.Instances.
 
 (* (a) the transform is linear ... *)
@@ -81,11 +82,20 @@ Theorem C03_chain_partition :
   forall (S : Scalar), is_ring S -> forall (segs monos : list (plane S)),
   Forall2 (fun Ps Pm => exists n m, partition_of Ps Pm n m) segs monos ->
   forall w ws wm, (forall f, In f (pw_data w) -> fwell f) ->
-  regular_chain segs w ws -> regular_chain monos w wm ->
+  chain_multiply segs w = Ok ws -> chain_multiply monos w = Ok wm ->
   pw_lam ws = pw_lam wm /\ pw_shape ws = pw_shape wm /\ pw_pix ws = pw_pix wm /\ pw_focal ws = pw_focal wm /\
   forall r c, ec_sum (pw_data ws) r c = ec_sum (pw_data wm) r c.
 Proof. exact chain_partition. Qed.
 Print Assumptions C03_chain_partition.
+
+(* ... and the monolithic chain runs whenever the segmented one does *)
+Theorem C03_chain_partition_runs :
+  forall (S : Scalar), is_ring S -> forall (segs monos : list (plane S)),
+  Forall2 (fun Ps Pm => exists n m, partition_of Ps Pm n m) segs monos ->
+  forall w ws, (forall f, In f (pw_data w) -> fwell f) ->
+  chain_multiply segs w = Ok ws -> exists wm, chain_multiply monos w = Ok wm.
+Proof. exact chain_partition_runs. Qed.
+Print Assumptions C03_chain_partition_runs.
 
 (* equal plane functions are indistinguishable through Wavefront.field and Wavefront.intensity,
    however the plane is cut into fields *)
@@ -144,10 +154,9 @@ Print Assumptions C03_propagation_depends_on_the_sum_only.
 Theorem C03_segmented_eq_monolithic :
   forall (S : Scalar), is_ring S -> kernel_laws S -> forall (sq : Qc -> S) (segs monos : list (plane S))
     (w ws wm : pwf S) (dur duc : Qc) (shape pshape : option (Z * Z)) (os : Z) (dxr dxc : Qc) (n m Sr Sc Pr Pc B : Z),
-  Forall2 (fun Ps Pm => exists n0 m0, partition_of Ps Pm n0 m0) segs monos ->
+  Forall2 (fun Ps Pm => exists n0 m0, partition_of Ps Pm n0 m0) segs monos -> segs <> [] ->
   (forall f, In f (pw_data w) -> fwell f) ->
-  regular_chain segs w ws -> regular_chain monos w wm ->
-  no_ones (pw_data ws) -> no_ones (pw_data wm) ->
+  chain_multiply segs w = Ok ws -> chain_multiply monos w = Ok wm ->
   (forall f, In f (pw_data ws) ->
      let '(rmin, rmax, cmin, cmax) := fextent f in - B <= rmin /\ rmax <= B /\ - B <= cmin /\ cmax <= B) ->
   (forall f, In f (pw_data wm) ->
@@ -204,4 +213,25 @@ Example C03_nonvacuous :
       | _, _ => False end
   | _, _ => False end /\
   match intensity [ovA; ovB] 4 4 with Ok i => get i 2 2 = 9 /\ get i 1 1 = 1 /\ get i 3 3 = 4 | Err _ => False end.
+Proof. vm_compute. repeat split; reflexivity. Qed.
+
+(* the repaired corners: a segment that is a single sample, and a partition into one segment given as a
+   one-layer cube, both agree with the monolithic description (3x3 aperture over Z) *)
+Definition exP1 : arr ZS := @mkArr ZS 3 3 (fun i j => if (i <=? 1) && (j <=? 1) then 1 else 0).
+Definition exP2 : arr ZS := @mkArr ZS 3 3 (fun i j => if (i =? 2) && (j =? 2) then 1 else 0).     (* one sample *)
+Definition exPG : arr ZS := @mkArr ZS 3 3 (fun i j => if ((i <=? 1) && (j <=? 1)) || ((i =? 2) && (j =? 2)) then 1 else 0).
+Definition exPA : arr ZS := @mkArr ZS 3 3 (fun i j => 2 + i + 3 * j).
+Definition mkEx (m : mraw ZS) : result (plane ZS) :=
+  plane_init (S := ZS) (fun x => negb (x =? 0)) (AmpA exPA) (OpdS 0%Qc) m (Pix1 1%Qc) (Some (FVal 1%Qc)) [].
+Definition fieldOf (ps : list (result (plane ZS))) : option (list ZS) :=
+  match rmapM (fun x => x) ps with
+  | Ok l => match chain_multiply l (pwf_init (S := ZS) 1%Qc PixNone None []) with
+            | Ok w => match pwf_field w with Ok (D2 a) => Some (tabulate a) | _ => None end
+            | Err _ => None end
+  | Err _ => None end.
+Example C03_single_sample_segment_and_one_layer_cube :
+  fieldOf [mkEx (M3 3 3 [exP1; exP2])] = fieldOf [mkEx (M2 exPG)] /\
+  fieldOf [mkEx (M3 3 3 [exP1; exP2]); mkEx (M3 3 3 [exP1; exP2])] = fieldOf [mkEx (M2 exPG); mkEx (M2 exPG)] /\
+  fieldOf [mkEx (M3 3 3 [exPG])] = fieldOf [mkEx (M2 exPG)] /\
+  fieldOf [mkEx (M2 exPG)] = Some [2; 5; 0; 3; 6; 0; 0; 0; 10].
 Proof. vm_compute. repeat split; reflexivity. Qed.
